@@ -91,8 +91,21 @@ def write_cfg(path, spec="Spec", constants=None, invariants=(), properties=(), d
 _PAYLOAD = re.compile(r'^"((?:CASE|TRACE|OBS|REJ|ACC|WIT) .*)"$')
 
 
+_spec_copy = None
+
+
+def spec_copy():
+    """scratch copy of spec/ so that generated wrapper modules and cfg files sit next to the modules"""
+    global _spec_copy
+    if _spec_copy is None:
+        d = os.path.join(scratch(), "spec")
+        shutil.copytree(SPEC, d)
+        _spec_copy = d
+    return _spec_copy
+
+
 def run_tlc(module, cfg, *, workers=16, simulate=None, depth=None, timeout=600, extra=(), env=None,
-            payload_cb=None, keep_lines=True, continue_=False, coverage=False, java_opts=None):
+            payload_cb=None, keep_lines=True, continue_=False, coverage=False, java_opts=None, cwd=None):
     """Run TLC on spec/<module>.tla with the given cfg file (absolute path or relative to spec/).
 
     simulate: None for exhaustive BFS, else dict(num=N) for `-simulate num=N` with -depth.
@@ -119,7 +132,7 @@ def run_tlc(module, cfg, *, workers=16, simulate=None, depth=None, timeout=600, 
     e = dict(os.environ)
     if env:
         e.update(env)
-    proc = subprocess.Popen(cmd, cwd=SPEC, stdout=subprocess.PIPE, stderr=subprocess.STDOUT,
+    proc = subprocess.Popen(cmd, cwd=(cwd or SPEC), stdout=subprocess.PIPE, stderr=subprocess.STDOUT,
                             text=True, env=e, bufsize=1 << 20)
     tail = []
     in_trace = False
